@@ -2,6 +2,7 @@ import DeepModel.Driver.Proto
 import DeepModel.Model.Collector
 import DeepModel.Model.CollectorTime
 import DeepModel.Model.CollectorDeferred
+import DeepModel.Model.CollectorAbort
 open Lean Proto Heap Collector
 
 def probeOf {α : Type} (j : Json) (k : String) (f : Json → Except String α) : Except String (Probe α) := do
@@ -63,8 +64,12 @@ def deferredOf (j : Json) : Except String (Option (String × Nat)) := do
   | .error _ => pure none
   | .ok d => pure (some (← getStr d "event", ← getNat d "value"))
 
-def runActions (H : Heap) (acts : List ActionIn) (defs : List (Option (String × Nat))) : List Outcome :=
-  if defs.all Option.isNone then processActions H ⟨[], []⟩ acts
+def runActions (H : Heap) (abs : List (Option String)) (acts : List ActionIn) (defs : List (Option (String × Nat))) :
+    List Outcome :=
+  if abs.any Option.isSome then
+    -- some object of the heap makes an unguarded probe raise ("aborts": msg): the model with the abort outcome
+    acts.map (collectA H (fun o => (abs[o]?).join))
+  else if defs.all Option.isNone then processActions H ⟨[], []⟩ acts
   else List.zipWith (fun a d =>
     match selfClassFailure H a.frames with
     | some m => Outcome.failed m
@@ -101,11 +106,13 @@ def handle (j : Json) : Except String Json := do
   match op with
   | "collect" =>
     let H : Heap := ⟨← (← getArr j "heap").toList.mapM parseObj⟩
+    let abs : List (Option String) := (← getArr j "heap").toList.map
+      (fun o => (o.getObjVal? "aborts").toOption.bind (fun m => m.getStr?.toOption))
     match j.getObjVal? "clock" with
     | .error _ =>
       let acts ← (← getArr j "actions").toList.mapM parseAction
       let defs ← (← getArr j "actions").toList.mapM deferredOf
-      let outs := runActions H acts defs
+      let outs := runActions H abs acts defs
       pure (Json.mkObj [("actions", Json.arr (outs.map outcomeJson).toArray)])
     | .ok ck =>
       let reads ← (← getArr ck "reads").toList.mapM (fun x => x.getInt?)
@@ -113,7 +120,7 @@ def handle (j : Json) : Except String Json := do
       let tacts ← (← getArr j "actions").toList.mapM parseTimedAction
       let r := CollectorTime.timedActions (← getInt ck "ts") script 0 tacts
       let defs ← (← getArr j "actions").toList.mapM deferredOf
-      let outs := runActions H r.1 defs
+      let outs := runActions H abs r.1 defs
       pure (Json.mkObj [("actions", Json.arr (outs.map outcomeJson).toArray), ("reads", toJson r.2),
                         ("collected", Json.arr (r.1.map (fun a => Json.arr (a.frames.map (fun f => Json.bool f.collect)).toArray)).toArray)])
   | "consts" =>
